@@ -11,7 +11,9 @@ RULE = ("results of all seven result types (arp, tcp, icmp/udp, socks, elastic, 
         "server maps (elastic) and reflectively filled docker Info/Version structs; all 256 one-byte strings and boundary "
         "two/three-byte strings through both escapers; JSON texts (valid and damaged) through encoding/json as the decoder "
         "tie; logger histories (closed / cancelled after k / with flush ticks) and unique-logger histories with random "
-        "repetition patterns; producer bursts (2-12 ARP / TCP / ICMP reply frames of 2-5 hosts with repeats through the real "
+        "repetition patterns; text that looks like JSON escapes (backslash + uXXXX) in values and map keys; back-pressure "
+        "histories (one producer, NewResultChan of capacity 4 and 1000, more than 2x capacity results behind a stalled writer); "
+        "producer bursts (2-12 ARP / TCP / ICMP reply frames of 2-5 hosts with repeats through the real "
         "processors into the real result channel, fully queued before the real JSON / unique logger prints them); one big "
         "unique-logger history (the 524288 addresses of 10.0.0.0/13, each seen three times "
         "interleaved) judged on the implementation alone; non-trivial = a result/string that is actually encoded, a text Go accepts, a history with at "
@@ -221,7 +223,8 @@ def run(ctx):
     if stricter:
         ctx.info.append("%d damaged texts with raw invalid UTF-8 inside a string are accepted by encoding/json (it substitutes "
                         "U+FFFD) and rejected by the model's strict decoder; expected, not compared" % stricter)
-    rows = [o for o in rows if o["t"] != "big"]      # judged on the implementation alone
+    # judged on the implementation alone (too big to be worth re-evaluating in Coq; the capacity-4 histories are)
+    rows = [o for o in rows if o["t"] != "big" and o.get("class") != "backpressure-cap1000"]
     if model_ok and rows:
         nshards = 16 if quick else 64
         size = max(1, (len(rows) + nshards - 1) // nshards)
